@@ -387,6 +387,17 @@ class _InlineTemps(ast.NodeTransformer):
                                 out.append(b)
                                 i += 2
                                 continue
+                    # the element handed to a plain accumulator: `item = E` / `acc.append(item)` -> `acc.append(E)` (what is left of a
+                    # generator helper whose yields became appends)
+                    if isinstance(b, ast.Expr) and isinstance(b.value, ast.Call) and isinstance(b.value.func, ast.Attribute) and \
+                            b.value.func.attr in ('append', 'add') and isinstance(b.value.func.value, ast.Name) and b.value.func.value.id != t and \
+                            len(b.value.args) == 1 and not b.value.keywords and isinstance(b.value.args[0], ast.Name) and b.value.args[0].id == t and \
+                            loads.get(t, 0) == 1 and stores.get(t, 0) == 1 and t not in params and \
+                            not any(isinstance(x, ast.Name) and x.id == b.value.func.value.id for x in ast.walk(a.value)):
+                        b.value.args[0] = a.value
+                        out.append(b)
+                        i += 2
+                        continue
                     # a method value of a computed receiver, called in the next statement: `m = f(x).meth` / `r = m(a)` is
                     # `m = f(x)` / `r = m.meth(a)` (the attribute is looked up before the arguments are evaluated either way)
                     if use_x is not None and isinstance(a.value, ast.Attribute) and not _calls_nothing(a.value) and isinstance(use_x, ast.Call) and \
